@@ -272,6 +272,44 @@ theorem ext_setOld_persist {sem : ScmSem σ κ} {new : List (NewEntry σ)} (st :
     Ext sem new st (persist { st with old := setOld st.old n }) :=
   (ext_of_same (b := { st with old := setOld st.old n }) rfl rfl rfl).trans (ext_persist _)
 
+theorem ext_invalidate {sem : ScmSem σ κ} {new : List (NewEntry σ)} (e : OldEntry σ) (st : St σ κ) :
+    Ext sem new st (invalidate e st) := by
+  unfold invalidate
+  split
+  · have h1 : Ext sem new st
+        { st with old := st.old.map (fun o => if o.dir == e.dir then { o with digest := none } else o) } :=
+      ext_of_same rfl rfl rfl
+    exact h1.trans (ext_persist _)
+  · exact Ext.refl _ _ _
+
+theorem fs_invalidate (e : OldEntry σ) (st : St σ κ) :
+    (invalidate e st).fs = st.fs ∧ (invalidate e st).wsMissing = st.wsMissing ∧
+    (invalidate e st).nextAttic = st.nextAttic ∧ (invalidate e st).plain = st.plain := by
+  unfold invalidate
+  split <;> exact ⟨rfl, rfl, rfl, rfl⟩
+
+theorem ext_changedStep {sem : ScmSem σ κ} {new : List (NewEntry σ)} (ae : Bool) (st st' : St σ κ)
+    (tr tr' : List (Comps × Nat)) (e : OldEntry σ)
+    (h : changedStep sem ae new st tr e = .ok (st', tr')) : Ext sem new st st' := by
+  unfold changedStep at h
+  simp only at h
+  split at h
+  · split at h
+    · simp only [Except.ok.injEq, Prod.mk.injEq] at h
+      rw [← h.1]
+      exact (ext_trySwitch e (normComps e.dir) st).trans (ext_setOld_persist _ _)
+    · simp only [Except.ok.injEq, Prod.mk.injEq] at h
+      rw [← h.1]; exact ext_trySwitch e _ st
+  · split at h
+    · split at h
+      · cases h
+      · simp only [Except.ok.injEq, Prod.mk.injEq] at h
+        rw [← h.1]
+        exact (ext_trySwitch e _ st).trans ((ext_moveAway e _ _).trans (ext_dropOld _ _))
+    · simp only [Except.ok.injEq, Prod.mk.injEq] at h
+      rw [← h.1]
+      exact (ext_trySwitch e _ st).trans (ext_dropOld _ _)
+
 theorem ext_loopStep {sem : ScmSem σ κ} {new : List (NewEntry σ)} (ae : Bool) (st st' : St σ κ)
     (tr tr' : List (Comps × Nat)) (e : OldEntry σ)
     (h : loopStep sem ae new st tr e = .ok (st', tr')) : Ext sem new st st' := by
@@ -288,22 +326,7 @@ theorem ext_loopStep {sem : ScmSem σ κ} {new : List (NewEntry σ)} (ae : Bool)
   · split at h
     · simp only [Except.ok.injEq, Prod.mk.injEq] at h
       rw [← h.1]; exact Ext.refl _ _ _
-    · split at h
-      · split at h
-        · simp only [Except.ok.injEq, Prod.mk.injEq] at h
-          rw [← h.1]
-          exact (ext_trySwitch e (normComps e.dir) st).trans (ext_setOld_persist _ _)
-        · simp only [Except.ok.injEq, Prod.mk.injEq] at h
-          rw [← h.1]; exact ext_trySwitch e _ st
-      · split at h
-        · split at h
-          · cases h
-          · simp only [Except.ok.injEq, Prod.mk.injEq] at h
-            rw [← h.1]
-            exact (ext_trySwitch e _ st).trans ((ext_moveAway e _ _).trans (ext_dropOld _ _))
-        · simp only [Except.ok.injEq, Prod.mk.injEq] at h
-          rw [← h.1]
-          exact (ext_trySwitch e _ st).trans (ext_dropOld _ _)
+    · exact (ext_invalidate e st).trans (ext_changedStep ae _ st' tr tr' e h)
 
 theorem ext_loopAll {sem : ScmSem σ κ} {new : List (NewEntry σ)} (ae : Bool) :
     ∀ (es : List (OldEntry σ)) (st : St σ κ) (tr : List (Comps × Nat)),
@@ -315,7 +338,7 @@ theorem ext_loopAll {sem : ScmSem σ κ} {new : List (NewEntry σ)} (ae : Bool) 
     intro st tr
     unfold Checkout.loopAll
     cases h : loopStep sem ae new st tr e with
-    | error x => exact ext_trySwitch e _ st
+    | error x => exact (ext_invalidate e st).trans (ext_trySwitch e _ _)
     | ok v =>
       obtain ⟨st', tr'⟩ := v
       exact (ext_loopStep ae st st' tr tr' e h).trans (ih st' tr')
@@ -516,6 +539,28 @@ theorem J_moveAway (e : OldEntry σ) (p : Comps) (st : St σ κ)
   simp only [emit, applyOp]
   exact J_move st.fs p st.nextAttic h
 
+theorem J_changedStep (hs : SemKeeps sem work) (ae : Bool) (st st' : St σ κ)
+    (tr tr' : List (Comps × Nat)) (e : OldEntry σ)
+    (hl : changedStep sem ae new st tr e = .ok (st', tr'))
+    (h : J sem work new fs0 i st.fs) : J sem work new fs0 i st'.fs := by
+  unfold changedStep at hl
+  simp only at hl
+  have hsw := J_trySwitch hs e (normComps e.dir) st h
+  split at hl
+  · split at hl
+    · simp only [Except.ok.injEq, Prod.mk.injEq] at hl
+      rw [← hl.1]; exact hsw
+    · simp only [Except.ok.injEq, Prod.mk.injEq] at hl
+      rw [← hl.1]; exact hsw
+  · split at hl
+    · split at hl
+      · cases hl
+      · simp only [Except.ok.injEq, Prod.mk.injEq] at hl
+        rw [← hl.1, fs_dropOld]
+        exact J_moveAway e _ _ hsw
+    · simp only [Except.ok.injEq, Prod.mk.injEq] at hl
+      rw [← hl.1, fs_dropOld]; exact hsw
+
 theorem J_loopStep (hs : SemKeeps sem work) (ae : Bool) (st st' : St σ κ)
     (tr tr' : List (Comps × Nat)) (e : OldEntry σ)
     (hl : loopStep sem ae new st tr e = .ok (st', tr'))
@@ -531,21 +576,7 @@ theorem J_loopStep (hs : SemKeeps sem work) (ae : Bool) (st st' : St σ κ)
   · split at hl
     · simp only [Except.ok.injEq, Prod.mk.injEq] at hl
       rw [← hl.1]; exact h
-    · have hsw := J_trySwitch hs e (normComps e.dir) st h
-      split at hl
-      · split at hl
-        · simp only [Except.ok.injEq, Prod.mk.injEq] at hl
-          rw [← hl.1]; exact hsw
-        · simp only [Except.ok.injEq, Prod.mk.injEq] at hl
-          rw [← hl.1]; exact hsw
-      · split at hl
-        · split at hl
-          · cases hl
-          · simp only [Except.ok.injEq, Prod.mk.injEq] at hl
-            rw [← hl.1, fs_dropOld]
-            exact J_moveAway e _ _ hsw
-        · simp only [Except.ok.injEq, Prod.mk.injEq] at hl
-          rw [← hl.1, fs_dropOld]; exact hsw
+    · exact J_changedStep hs ae _ st' tr tr' e hl (by rw [(fs_invalidate e st).1]; exact h)
 
 theorem J_loopAll (hs : SemKeeps sem work) (ae : Bool) :
     ∀ (es : List (OldEntry σ)) (st : St σ κ) (tr : List (Comps × Nat)),
@@ -557,7 +588,7 @@ theorem J_loopAll (hs : SemKeeps sem work) (ae : Bool) :
     intro st tr h
     unfold Checkout.loopAll
     cases hl : loopStep sem ae new st tr e with
-    | error x => exact J_trySwitch hs e _ st h
+    | error x => exact J_trySwitch hs e _ _ (by rw [(fs_invalidate e st).1]; exact h)
     | ok v =>
       obtain ⟨st', tr'⟩ := v
       exact ih st' tr' (J_loopStep hs ae st st' tr tr' e hl h)
